@@ -255,6 +255,13 @@ func AnyRootWindow(name string, C, K, a, b, partial, fix int) (root, w AnyBuf) {
 		w = root.Slice(a, b)
 	case 2:
 		fillVia = root.Slice(0, K)
+	case 3:
+		// as 2; and when the window is the whole root, the never-written root header
+		// itself is the "window" (callers must then fill through an alias as well)
+		fillVia = root.Slice(0, K)
+		if a == 0 && b == K && partial == 0 {
+			w = root
+		}
 	}
 	for p := 0; p < C*K; p++ {
 		fillVia.Set(p, IV(Sentinel(p)))
